@@ -5,6 +5,7 @@ import DimodProofs.GenProofs2
 import DimodProofs.GenProofs3
 import DimodModel.GenTables
 import DimodModel.GenPurity
+import DimodProofs.RandomCycle
 
 /-! # C17 — problem generators encode exactly the relation they document
 
@@ -1334,5 +1335,34 @@ theorem generator_call_leaves_arguments_unchanged {H M : Type} (fn : String) (ge
     first call and the second model is built from the negated values -/
 example : Gen.callTwice [("knapsack.knapsack", "values *= -1")] "knapsack.knapsack" (fun (v : List Int) => v.map (fun a => -a))
       (fun v => v.map (fun a => -a)) [3, 5] = ([-3, -5], [3, 5], [3, 5]) := by decide
+
+/-! ## `_random_cycle` (the random walk of `frustrated_loop`) as coded (round 8)
+
+`Gen.randomCycle adj draws`: `adj` with the recorded iteration order of the dict and of every neighbour set, `draws` the recorded
+`randint(len(adj))` and `choice` indices.  Until round 7 the walk was recorded, not modelled. -/
+
+/-- **whatever the set orders and the draws, a returned walk is a simple cycle of the graph**: no node twice, every node a neighbour
+    of its predecessor, the first a neighbour of the last, at least 3 nodes (graph without self-loops: `frustrated_loop` builds `adj`
+    from edges `u != v`) — so the loops summed by `frustrated_loop` are cycles of the given graph (`closed_walk_bound`,
+    `frustrated_loop_each_loop` apply to them) -/
+theorem random_cycle_is_simple_cycle (adj : List (Label × List Label)) (hns : ∀ v, v ∉ Gen.rcNeighbors adj v)
+    (draws : List Nat) (c : List Label) (h : Gen.randomCycle adj draws = some (some c)) :
+    c.Nodup ∧ c.IsChain (fun a b => b ∈ Gen.rcNeighbors adj a) ∧ 3 ≤ c.length
+      ∧ ∃ f l, c.head? = some f ∧ c.getLast? = some l ∧ f ∈ Gen.rcNeighbors adj l := by
+  unfold Gen.randomCycle at h
+  split at h
+  · simp at h
+  · split at h
+    · simp at h
+    · rename_i e _
+      exact Gen.rcLoop_spec adj hns _ [e.1] c (List.isChain_singleton _) (List.nodup_singleton _) h
+
+/-- the walk on the triangle 0–1–2 (neighbour sets iterated as listed): start `adj[0]`, then the first candidate each time closes
+    `[0, 1, 2]`; on the path 0–1 it walks into the dead end (`None`); the hypothesis "no self-loops" holds for both -/
+example : Gen.randomCycle [(.int 0, [.int 1, .int 2]), (.int 1, [.int 0, .int 2]), (.int 2, [.int 0, .int 1])] [0, 0, 0, 0]
+      = some (some [.int 0, .int 1, .int 2])
+    ∧ Gen.randomCycle [(.int 0, [.int 1]), (.int 1, [.int 0])] [0, 0] = some none
+    ∧ Gen.randomCycle [(.int 0, [.int 1, .int 2]), (.int 1, [.int 0, .int 2]), (.int 2, [.int 0, .int 1])] [2, 1, 0, 0]
+      = some (some [.int 2, .int 1, .int 0]) := by decide +kernel
 
 end C17
